@@ -188,6 +188,33 @@ func (p OneByteReader) Read(b []byte) (int, error) {
 	return p.R.Read(b[:1])
 }
 
+// StutterReader is a legal but awkward io.Reader: every other call returns (0, nil), data comes
+// in pieces of at most 3 bytes, and the last piece is returned together with io.EOF.
+type StutterReader struct {
+	B   []byte
+	pos int
+	n   int
+}
+
+func (p *StutterReader) Read(b []byte) (int, error) {
+	p.n++
+	if len(b) == 0 {
+		return 0, nil
+	}
+	if p.pos >= len(p.B) {
+		return 0, io.EOF
+	}
+	if p.n%2 == 0 {
+		return 0, nil
+	}
+	k := copy(b[:min(3, len(b))], p.B[p.pos:])
+	p.pos += k
+	if p.pos >= len(p.B) {
+		return k, io.EOF
+	}
+	return k, nil
+}
+
 // CountingReader counts bytes delivered and calls.
 type CountingReader struct {
 	R     io.Reader
